@@ -335,6 +335,7 @@ func dischargeOne(ob *Oblig, mode string, solvers []string, timeout time.Duratio
 	}
 	var script string
 	var vars []*Term
+	var retryRoots []*Term
 	if mode == "int" {
 		tr := newIntTranslator()
 		tr.skipHyp = asserted
@@ -370,11 +371,40 @@ func dischargeOne(ob *Oblig, mode string, solvers []string, timeout time.Duratio
 		if len(vars) > 400 {
 			vars = vars[:400]
 		}
+		retryRoots = iroots
 	} else {
 		script = SMTScript(roots)
 		vars = termVars(roots...)
+		retryRoots = flattenAnd(AndAll(roots...))
 	}
 	res := SolveC(script, vars, timeout, solvers, cancel)
+	if res.Status != "sat" && res.Status != "unsat" && res.Err != "cancelled" && retryRoots != nil {
+		// the back ends gave up (their answer to a hard non-linear query depends on assertion order and term
+		// numbering, which vary from run to run): ask again with the assertions in a different order; only a
+		// definitive answer is taken from the retries
+		for attempt := 0; attempt < 2; attempt++ {
+			rr := append([]*Term(nil), retryRoots...)
+			if attempt == 0 {
+				for i, j := 0, len(rr)-1; i < j; i, j = i+1, j-1 {
+					rr[i], rr[j] = rr[j], rr[i]
+				}
+			} else {
+				for i := range rr {
+					j := (i*7 + 3) % len(rr)
+					rr[i], rr[j] = rr[j], rr[i]
+				}
+			}
+			r2 := SolveC(SMTScript(rr), vars, timeout, solvers, cancel)
+			if r2.Status == "sat" || r2.Status == "unsat" {
+				res = r2
+				break
+			}
+			if r2.Err == "cancelled" {
+				res = r2
+				break
+			}
+		}
+	}
 	ob.Solver = res.Solver
 	if res.Err == "cancelled" {
 		ob.Verdict = "skipped"
